@@ -14,7 +14,7 @@ from fractions import Fraction as Fr
 from core import *
 
 NEEDS = ["Vectorize", "VectorizeProofs", "Corr"]
-GUARDS = ["no_constant_rhs", "single_source_var", "no_scalar_fanout"]
+GUARDS = ["no_constant_rhs", "no_scalar_fanout"]
 RAW_GUARD = "algebraic_source_independent_of_input"
 XN = ["x", "xb", "xc", "xd"]
 
@@ -67,7 +67,7 @@ def build_raw(case):
     from pyrates import OperatorTemplate, NodeTemplate, CircuitTemplate
     ops = [OperatorTemplate(name=o["name"], equations=o["equations"], variables=o["variables"]) for o in case["operators"]]
     nodes = {n: NodeTemplate(n, operators={ops[oi]: {k: float(Fr(v)) for k, v in ov.items()}}) for n, oi, ov in case["rnodes"]}
-    edges = [(s, t, None, {"weight": float(Fr(w))}) for s, t, w in case["redges"]]
+    edges = [(e[0], e[1], None, dict({"weight": float(Fr(e[2]))}, **({"delay": float(Fr(e[3]))} if len(e) > 3 else {}))) for e in case["redges"]]
     return CircuitTemplate("c", nodes=nodes, edges=edges)
 
 # ---- multi-operator node types (NOT modelled in Coq: real vec vs real non-vec vs the python unit-level sum) ----------
@@ -147,10 +147,7 @@ def mo_rename_chain(case):
     return False
 
 def gen_mo(rng):
-    while True:
-        case = _gen_mo(rng)
-        if not mo_rename_chain(case):
-            return case
+    return _gen_mo(rng)          # rename chains (D58, repaired) are generated like everything else
 
 def _gen_mo(rng):
     ntypes = rng.randint(2, 3)
@@ -268,7 +265,25 @@ def _trajectory(case, vec, tag):
     finally:
         pyr.reset_pyrates()
 
+def _raw_trajectory(case, vec, tag):
+    """raw circuits with delays: Euler trajectory through run(); compared vec vs non-vec only (not model-tied)"""
+    import pyr
+    tr = case["rtraj"]
+    pyr.reset_pyrates()
+    try:
+        c = build_raw(case)
+        try:
+            res = c.run(simulation_time=float(Fr(tr["T"])), step_size=float(Fr(tr["h"])), solver="euler", outputs=dict(tr["outputs"]),
+                        vectorize=vec, backend="default", float_precision="float64", verbose=False, clear=True, file_name=f"q{tag}")
+        except Exception as e:
+            return _raised(e, "run")
+        return {"ok": [[pyr.frac(res[k].iloc[i]) for k in sorted(tr["outputs"])] for i in range(int(res.shape[0]))]}
+    finally:
+        pyr.reset_pyrates()
+
 def impl(case):
+    if case.get("rtraj"):
+        return {"vec": _raw_trajectory(case, True, "v"), "non": _raw_trajectory(case, False, "n")}
     out = {"vec": _vector_field(case, True, "v"), "non": _vector_field(case, False, "n")}
     if case.get("traj"):
         out["tvec"] = _trajectory(case, True, "tv")
@@ -328,11 +343,8 @@ def py_guards(case):
         bad.add("no_constant_rhs")
     pairs = {}
     for s_, t, w, sv in edges:
-        pairs.setdefault((cls(s_), cls(t)), []).append((t, sv))
-    for (sc, tc), l in pairs.items():
-        if len({sv for _, sv in l}) > 1:
-            bad.add("single_source_var")
-        ts = [t for t, _ in l]
+        pairs.setdefault((cls(s_), cls(t), sv), []).append(t)
+    for (sc, tc, _sv), ts in pairs.items():
         if cnt[sc] == 1 and len(ts) >= 10 and len(set(ts)) == len(ts):
             bad.add("no_scalar_fanout")
     return bad
@@ -465,7 +477,7 @@ def gen_case(rng, kind="mixed"):
     for e in edges:
         ci = nodes[e[0]][0]
         has_m = classes[ci]["g"] is not None
-        if clean or svmode < 0.85:
+        if clean or svmode < 0.75:
             e.append(1 if has_m and use_m[ci] else 0)             # one source variable per class
         else:
             e.append(1 if has_m and rng.random() < 0.5 else 0)    # mixed: D3 when one pair of classes sees both
@@ -576,7 +588,7 @@ def model_compare(ctx, cases, outs, tag):
 def model_outputs(ctx, case, r, tag):
     body = (f"Definition c := {coq_circuit(case)}.\nDefinition st := {coq_row(case['states'][0])}.\n"
             "Eval vm_compute in (spec c st).\nEval vm_compute in (impl true c st).\nEval vm_compute in (impl false c st).\n"
-            "Eval vm_compute in (no_constant_rhs c, single_source_var c, no_scalar_fanout c).\n")
+            "Eval vm_compute in (no_constant_rhs c, no_scalar_fanout c).\n")
     try:
         return coq_eval(ctx, f"c04_show_{tag}", HEADER, body)[:6000]
     except Exception as e:
@@ -593,8 +605,6 @@ def shrink(ctx, case):
     allowed = set() if mo else py_guards(case)
     def fails(c):
         if not mo and not py_guards(c) <= allowed:          # do not drift into the class of another (known) finding
-            return False
-        if mo and mo_rename_chain(c) and not mo_rename_chain(case):
             return False
         budget[0] -= 1
         r = run_impl(ctx, "c04", "impl", [c], nworkers=1)[0]
@@ -621,6 +631,13 @@ def _mixed_group(c):
     for s_, t, w, sv in c["edges"]:
         key = (c["nodes"][s_][0], c["nodes"][t][0], sv)
         seen.setdefault(key, set()).add(w is None)
+    return any(len(v) == 2 for v in seen.values())
+
+def _mixed_sv(c):
+    """one (source class, target class) pair is fed through both source variables (the D3 class, repaired by D59)"""
+    seen = {}
+    for s_, t, w, sv in c["edges"]:
+        seen.setdefault((c["nodes"][s_][0], c["nodes"][t][0]), set()).add(sv)
     return any(len(v) == 2 for v in seen.values())
 
 def _mult_only(c):
@@ -663,9 +680,6 @@ def check(ctx):
             badS.append(i)                          # cannot happen when the Coq comparison is right; never silently dropped
     mo_bad = [i for i in moi if mo_disagrees(cases[i], outs[i])]     # multi-operator node types: real vec vs real non-vec vs python sum
     badS += mo_bad
-    for i in mo_bad:
-        if mo_rename_chain(cases[i]):
-            guard_viol[i] = [MO_GUARD]
     for i in rawi:                                 # unmodelled family (D23): vec vs non-vec only
         if raw_differs(outs[i]):
             badS.append(i); guard_viol[i] = [RAW_GUARD]
@@ -711,7 +725,9 @@ def check(ctx):
                 with_weightless_edges=sum(1 for c in cases if not c.get("raw") and any(e[-2 if not c.get("mo") else -1] is None for e in c["edges"])),
                 weightless_after_weighted_in_group=sum(1 for c in cases if not c.get("raw") and not c.get("mo") and _mixed_group(c)),
                 multi_operator=dict(cases=len(moi), mismatches=len(mo_bad),
-                                    types_differing_only_in_multiplicity=sum(1 for i in moi if _mult_only(cases[i]))),
+                                    types_differing_only_in_multiplicity=sum(1 for i in moi if _mult_only(cases[i])),
+                                    operator_rename_chains=sum(1 for i in moi if mo_rename_chain(cases[i]))),
+                mixed_source_variables=sum(1 for c in cases if not c.get("raw") and not c.get("mo") and _mixed_sv(c)),
                 max_nodes=max((len(c.get("nodes", [])) for c in cases), default=0))
     sample = dict(cases[-1]) if cases else {}
     write_evidence(ctx, evaluations=2 * sum(len(c["states"]) for c in cases) + 2 * sum(1 for c in cases if c.get("traj")),
@@ -726,7 +742,7 @@ def check(ctx):
                         "2 random dyadic states (+ Euler trajectories through run() for the linear subset); a circuit is non-trivial when some class has >= 2 "
                         "nodes and receives >= 1 edge; distinct = distinct canonical JSON",
                    samples=[sample], extra=dict(input_distribution=hist, impl_vs_model_mismatches=len(badI), impl_vs_spec_mismatches=len(badS),
-                                                guards=GUARDS, unmodelled=["multi-operator node types: compared on the real code only (vec vs non-vec vs python unit-level sum); guard " + MO_GUARD,
+                                                guards=GUARDS, unmodelled=["multi-operator node types: compared on the real code only (vec vs non-vec vs python unit-level sum)",
                                                             RAW_GUARD + " (D23: algebraic source variable that depends on its own input; "
                                                                            "raw witness compared vec vs non-vec only)"]),
                    trusted_base=["numpy float64 arithmetic is exact on the generated dyadic data (results are compared as exact rationals, no tolerance)",
